@@ -12,7 +12,7 @@ PROP = dict(
                    "retries) replayed in the model, (c) the regenerated call skeleton of the registry methods as a proof obligation.",
         level_note="Single-threaded protocol only (races are C20). The early-reference factory and the creation body are inputs (their "
                    "results are supplied per call); what the real factory makes of them is the container model's business (C01-C03, C09).",
-        signatures=['early-', 'factory-', 'in-creation-flag', 'published-changed', 'recreated', 'stale-after-failure', 'registry-panic', 'c04-'],
+        signatures=['early-', 'factory-', 'in-creation-flag', 'published-changed', 'recreated', 'stale-after-failure', 'registry-panic', 'c04-', 'c02-crash', 'c02-hang'],
         subs=[dict(sub="registry", n_quick=4000, n_thorough=300000),
               # the graph harness with its re-entrant callbacks: a second creation of a name must never start inside the first
               # (oracle c04-nested-creation, from the tracer around the real registry); only that oracle is C04's, and the
